@@ -109,7 +109,13 @@ pub fn check(case: &Case) -> Outcome {
     let mut claim: Vec<(u64, Felt)> = qs.iter().map(|q| (*q, tree.leaf(*q))).collect();
     let (mut auth, _) = tree.witness(&qs);
     let mut root = tree.root();
-    let delta = prf_felt(case.seed ^ 0xC04, 1);
+    // a PRF delta, or one that only touches bits above the masked-hash width (2^160 / 2^248 / 2^250)
+    let delta = match case.cb % 4 {
+        0 => Felt::TWO.pow(160u128),
+        1 => Felt::TWO.pow(248u128),
+        2 => Felt::TWO.pow(250u128) + Felt::TWO.pow(200u128),
+        _ => prf_felt(case.seed ^ 0xC04, 1),
+    };
     let boundary_inside = nvf >= 1 && nvf < h;
     let shape_name = ["single", "adjacent", "whole", "per_subtree", "dense", "random"][case.shape as usize % 6];
     let mut class = format!("honest/{}", shape_name);
